@@ -12,7 +12,7 @@ AWKWARD = ["plain doc", "quote ' and \" inside", "back\\slash", "two\nlines", "e
 def swarm(rng, faults):
     cfg = c02.swarm(rng)
     cfg.update({"n_spaces": rng.choice([2, 3, 4]), "n_cells": rng.choice([2, 3]), "n_refs": rng.choice([1, 2, 3]),
-                "n_hist": rng.choice([0, 5, 12]), "p_objref": rng.choice([0.0, 0.2, 0.35]), "p_sformula": rng.choice([0.0, 0.3]),
+                "n_hist": rng.choice([0, 5, 12]), "p_objref": rng.choice([0.0, 0.2, 0.35]), "p_mirror": rng.choice([0.0, 0.5]), "p_sformula": rng.choice([0.0, 0.3]),
                 "p_uncached": rng.choice([0.0, 0.3]), "recalc": False, "n_saves": rng.choice([2, 3, 4, 5, 6, 7]),
                 "zip_first": rng.random() < 0.5, "mix": rng.random() < 0.3, "faults": faults,
                 # known findings excluded from the corpus: the mode of literal-valued references and the inputs of
